@@ -51,6 +51,25 @@ def r1(ctx):
       'yields " " + itself only under r < insert_p && idx > 0 && !previous_character.is_whitespace(), otherwise itself; '
       'comparisons are strict (probability 0 never fires); the results are joined with ""')
 def r2(ctx):
+    # the returned text is exactly what the per-character pass produced: one run over enumerate(CS::new(text).chars()), never
+    # touched afterwards (a later "make sure something changed" step removes or adds whitespace regardless of the probabilities)
+    from analysis.seq import seq_of
+    f0 = ctx.body(CW)
+    tf = closures_in(ctx, f0, recursive=False)
+    if len(tf) == 1:
+        for v, blk in ret_values(tf[0]):
+            if not (v[0] == 'agg' and v[2].endswith('Result::Ok')):
+                continue
+            segs = seq_of(ctx.facts, tf[0], v[3][0]) or []
+            for sg in segs:
+                if sg.kind == 'opaque':
+                    ctx.fail(tf[0], 'result-modified|' + str(sg.what), 'the corrupted text is modified by `%s` (line %d) after the per-character pass: whitespace changes that '
+                             'are not governed by the insert / delete probabilities' % (sg.what, sg.term.span['line'] if sg.term else 0), sg.term.span if sg.term else None)
+            runs = [sg for sg in segs if sg.kind in ('each', 'nest')]
+            if len(segs) >= 1 and all(sg.kind != 'opaque' for sg in segs):
+                ctx.require(len(runs) == 1 and len(segs) == 1 and match(core(runs[0].src), Call('Iterator::enumerate', Call('CharString::chars', Call('CharString::new', ('arg', 2, ANY), ANY)))) and not runs[0].conds,
+                            tf[0], 'single-pass', 'the result is one pass over enumerate(CS::new(text, use_graphemes).chars())',
+                            'the result is built as %s' % [repr(x)[:120] for x in segs])
     f, outer, inner = _anchors(ctx)
     ch = ('field', ('arg', 2, ANY), 1)
     idx = ('field', ('arg', 2, ANY), 0)
